@@ -5,7 +5,12 @@ use crate::Args;
 use serde_json::Map;
 
 pub mod common;
+pub mod parse_common;
 pub mod c03;
+pub mod c04;
+pub mod c05;
+pub mod c06;
+pub mod c18;
 
 pub fn meta(args: &Args, rule: &str, assumptions: &[&str]) -> Meta {
     Meta {
@@ -24,6 +29,10 @@ pub fn meta(args: &Args, rule: &str, assumptions: &[&str]) -> Meta {
 pub fn dispatch(args: &Args) -> i32 {
     let (m, st): (Meta, Stats) = match args.id.as_str() {
         "C03" => c03::run(args),
+        "C04" => c04::run(args),
+        "C05" => c05::run(args),
+        "C06" => c06::run(args),
+        "C18" => c18::run(args),
         other => {
             eprintln!("unknown check {other}");
             return 2;
